@@ -18,7 +18,8 @@ META = {
         "helpers take `&mut dyn` writers and acquire nothing; (macros) each print-family macro, expanded in the harness, "
         "performs exactly one write_fmt on one AutoStream (non-test branch) and to_adapted_string + one std print (test "
         "branch), the newline being part of the same format template; (atomic) the only accessors of the process-wide choice "
-        "are new (initial from_choice(Auto)), get (one load, SeqCst) and set (one store, SeqCst) — no read-modify-write — and "
+        "are new (initial from_choice(Auto)), get (one load, SeqCst) and set (one store, SeqCst, on every path) — no read-modify-write; "
+        "global()/write_global() are exactly USER.get()/USER.set(self); from_choice/to_choice are mutually inverse tables — and "
         "every stored value is in the image of from_choice, on which to_choice is Some. Trusted: std's reentrant stdout lock "
         "and AtomicUsize."),
     "exhaustive": True,
@@ -56,8 +57,9 @@ def run(ctx):
     rep.guarded("helpers", "anstream::strip", lambda: rule_helpers(facts, rep))
     rep.guarded("macros", "verif_harness::macros", lambda: rule_macros(facts, rep))
     rep.guarded("atomic", "colorchoice::USER", lambda: rule_atomic(facts, rep))
+    rep.guarded("atomic", "colorchoice::ColorChoice", lambda: rule_register(facts, rep))
     rep.guarded("positive", "verif_harness::positive", lambda: rule_positive(facts, rep))
-    for r, n in (("sealed", 13), ("overrides", 3), ("one-lock", 35), ("helpers", 6), ("macros", 14), ("atomic", 6), ("positive", 2)):
+    for r, n in (("sealed", 13), ("overrides", 3), ("one-lock", 35), ("helpers", 6), ("macros", 14), ("atomic", 10), ("positive", 2)):
         rep.floor(r, n)
 
 
@@ -292,6 +294,41 @@ def rule_atomic(facts, rep):
                 src = hir.simp(lets.get(v.get("name"), {})) if v.get("k") == "local" else v
                 rep.check(hir.is_call(src, "colorchoice::AtomicChoice::from_choice"), "atomic", path, "stored-value-in-image-of-from_choice",
                           "so to_choice(..).expect(..) in get cannot fire", "")
+
+
+def rule_register(facts, rep):
+    """The public interface of the register: global() is one get, write_global(v) is one unconditional set(v); the
+    usize encoding is a bijection on the four choices (so a read returns exactly what was written)."""
+    g = facts.body("colorchoice", "colorchoice::ColorChoice::global")
+    rep.fn(g["path"])
+    e = ac.single_expr(g["hir"])
+    rep.check(hir.is_call(e, "colorchoice::AtomicChoice::get") and hir.is_def(e["args"][0], "colorchoice::USER"), "atomic", g["path"], "global=USER.get()", hirpp.expr(e)[:80], loc(g))
+    w = facts.body("colorchoice", "colorchoice::ColorChoice::write_global")
+    rep.fn(w["path"])
+    st = [hir.simp(x) for x in hir.stmts_of(w["hir"])]
+    ok = len(st) == 1 and hir.is_call(st[0], "colorchoice::AtomicChoice::set") and hir.is_def(st[0]["args"][0], "colorchoice::USER") and hir.is_local(st[0]["args"][1], "self")
+    rep.check(ok, "atomic", w["path"], "write_global=USER.set(self)-unconditionally",
+              "every completed write must reach the register (a skipped or conditional store loses 'the last write wins')", loc(w))
+    sb = facts.body("colorchoice", "colorchoice::AtomicChoice::set")
+    paths = hir.enumerate_paths(sb["hir"])
+    n_store = [sum(1 for t in p.trace if t[0] == "eval" and any(hir.is_call(c, "store") for c in hir.walk(t[1]))) for p in paths]
+    rep.check(all(n == 1 for n in n_store) and all(p.exit == "value" for p in paths), "atomic", sb["path"], "one-store-on-every-path", f"{n_store}", loc(sb))
+    fc = facts.body("colorchoice", "colorchoice::AtomicChoice::from_choice")
+    tc = facts.body("colorchoice", "colorchoice::AtomicChoice::to_choice")
+    enc, dec = {}, {}
+    m = ac.single_expr(fc["hir"])
+    for a in m.get("arms", []):
+        for alt in hir.pat_alternatives(a["pat"]):
+            if alt.get("k") == "ppath":
+                enc[alt["path"].split("::")[-1]] = hir.lit_val(a["body"])
+    m = ac.single_expr(tc["hir"])
+    for a in m.get("arms", []):
+        b = hir.simp(a["body"])
+        for v in hir.pat_ints(a["pat"]) or []:
+            if b.get("k") == "call" and b.get("ctor", "").endswith("Option::Some"):
+                dec[v] = hir.last_seg(hir.def_path(b["args"][0]))
+    ok = len(enc) == 4 and len(set(enc.values())) == 4 and all(dec.get(v) == k for k, v in enc.items()) and "guard" not in str([a.keys() for a in m.get("arms", [])])
+    rep.check(ok, "atomic", fc["path"], "to_choice(from_choice(c))=Some(c)-for-the-four-choices", f"{enc} / {dec}", loc(fc))
 
 
 def rule_positive(facts, rep):
